@@ -826,7 +826,9 @@ PPL::Grid::is_discrete() const {
     return true;
   }
   // Search for lines in the generator system.
-  for (dimension_type row = gen_sys.num_rows(); row-- > 1; ) {
+  // Note: when the generators are not minimized the first row
+  // is not necessarily a point.
+  for (dimension_type row = gen_sys.num_rows(); row-- > 0; ) {
     if (gen_sys[row].is_line()) {
       return false;
     }
